@@ -53,7 +53,7 @@ func getLogs(w http.ResponseWriter, r *http.Request) {
 
 	cursor, err := l.ListLogs(r.Context(), paginatedQuery)
 	if err != nil {
-		common.HandleCommonErrors(w, r, err)
+		common.HandleCommonPaginationErrors(w, r, err)
 		return
 	}
 
